@@ -117,6 +117,32 @@ func c01CloseRings(g geom.Polygonal) {
 	}
 }
 
+// c01RotateToMax rotates every (unclosed) ring so that it starts at its vertex with the largest x, ties by the largest y
+func c01RotateToMax(g geom.Polygonal) {
+	rot := func(p geom.Polygon) {
+		for i, r := range p {
+			if len(r) < 2 || r[0] == r[len(r)-1] {
+				continue
+			}
+			k := 0
+			for j, v := range r {
+				if v.X > r[k].X || (v.X == r[k].X && v.Y > r[k].Y) {
+					k = j
+				}
+			}
+			p[i] = append(append(geom.Path{}, r[k:]...), r[:k]...)
+		}
+	}
+	switch x := g.(type) {
+	case geom.Polygon:
+		rot(x)
+	case geom.MultiPolygon:
+		for _, p := range x {
+			rot(p)
+		}
+	}
+}
+
 func c01Rings(g geom.Polygonal) [][]geom.Path {
 	var out [][]geom.Path
 	if isNilPolygonal(g) {
@@ -206,6 +232,10 @@ func runC01(c map[string]interface{}) []Event {
 		if closedIn {
 			c01CloseRings(A)
 			c01CloseRings(B)
+		} else if (len(arr(c["A"]))+len(str(c["op"]))+int(seed()))%2 == 0 {
+			// unclosed rings may start at any of their vertices: here at the one with the largest x (then largest y)
+			c01RotateToMax(A)
+			c01RotateToMax(B)
 		}
 		if (len(arr(c["A"]))+len(arr(c["B"]))+int(seed()))%2 == 0 {
 			// the ring lists of all polygons of both operands are sub-slices of one array (as after decoding a whole layer into
@@ -238,6 +268,9 @@ func runC01(c map[string]interface{}) []Event {
 		if closedIn {
 			c01CloseRings(fa)
 			c01CloseRings(fb)
+		} else if (len(arr(c["A"]))+len(str(c["op"]))+int(seed()))%2 == 0 {
+			c01RotateToMax(fa)
+			c01RotateToMax(fb)
 		}
 		e["inputsame"] = reflect.DeepEqual(c01Rings(A), c01Rings(fa)) && reflect.DeepEqual(c01Rings(B), c01Rings(fb))
 		if isF1 {
